@@ -1,0 +1,27 @@
+//go:build verif
+
+package asm
+
+import "bytes"
+
+// Exported wrappers around the assembler's unexported integer and string
+// encoders, for the out-of-tree verification harness only (build tag verif).
+
+// VerifWriteSize encodes n the way the assembler writes size and signal arguments.
+func VerifWriteSize(n uint32) ([]byte, error) {
+	b := bytes.NewBuffer(nil)
+	_, err := writeSize(b, n)
+	return b.Bytes(), err
+}
+
+// VerifNumSize reports the byte width the assembler chooses for n.
+func VerifNumSize(n uint32) int {
+	return numSize(n)
+}
+
+// VerifWriteSym encodes s the way the assembler writes symbol, selector and label arguments.
+func VerifWriteSym(s string) ([]byte, error) {
+	b := bytes.NewBuffer(nil)
+	_, err := writeSym(b, s)
+	return b.Bytes(), err
+}
